@@ -3,6 +3,7 @@ import TeaalVerif.Nest.Dyn
 import TeaalVerif.Props.C03Nest
 import TeaalVerif.Props.C03Static
 import TeaalVerif.Props.C03Chain
+import TeaalVerif.Props.C03Flat
 open Lean
 namespace Driver
 open Nest
@@ -153,6 +154,49 @@ def nestChain (j : Json) : Except String Json := do
   let m := collect S (spec (levels S) (initTerms S env))
   let hyps := decide (C03.StatChainHyps S env sps L1 lvls σ0)
   let base := [("run", jPts r), ("spec", jPts m), ("expected_loops", jLoops (expectedLoops S')), ("hyps_ok", Json.bool hyps)]
+  match j.getObjVal? "tree" with
+  | .ok tj =>
+    let s ← HF.stmtOfJson tj
+    return Json.mkObj (base ++ [("actual_loops", jLoops (HF.loopSkeleton s))])
+  | .error _ => return Json.mkObj base
+
+/-- skeleton of a nest with flattened loops: consecutive levels driven by the same operand are one emitted loop over that
+    operand's flattened fiber -/
+def expectedLoopsFlat (S : EinsumS) (modes : List Mode) : List (String × List String) :=
+  let tensors := match S.terms with
+    | [t] => t.tensors
+    | _ => []
+  let plain := expectedLoops S
+  let rec go : List (String × List String) → List String → List Mode → Option (Nat × String) → List (String × List String)
+    | [], _, _, acc => match acc with
+      | some (o, v) => [(v, [((tensors[o]?.map (·.name)).getD "?").toLower ++ "_" ++ v])]
+      | none => []
+    | (v, fs) :: rest, _ :: rs, m :: ms, acc =>
+      match m, acc with
+      | .drive o, some (o', v') =>
+        if o = o' then go rest rs ms (some (o, v' ++ v))
+        else (v', [((tensors[o']?.map (·.name)).getD "?").toLower ++ "_" ++ v']) :: go rest rs ms (some (o, v))
+      | .drive o, none => go rest rs ms (some (o, v))
+      | .co, some (o', v') => (v', [((tensors[o']?.map (·.name)).getD "?").toLower ++ "_" ++ v']) :: (v, fs) :: go rest rs ms none
+      | .co, none => (v, fs) :: go rest rs ms none
+    | _, _, _, _ => []
+  go plain S.loop modes none
+
+def modeOfJson (j : Json) : Except String Mode :=
+  match j with
+  | .str "co" => pure .co
+  | _ => do pure (.drive (← natOf j))
+
+/-- op `nest_flat`: product Einsum with flattened ranks; loop order with the flattened ranks expanded; per loop "co" or the
+    index of the driving operand -/
+def nestFlat (j : Json) : Except String Json := do
+  let (S, env) ← einsumSOfJson j
+  let modes ← listOf modeOfJson (← fld j "modes")
+  let contribs := runG C03.kEmit (C03.levelsG S modes) (initTerms S env)
+  let r := collect S contribs
+  let m := collect S (spec (levels S) (initTerms S env))
+  let hyps := decide (C03.FlatHyps S env modes)
+  let base := [("run", jPts r), ("spec", jPts m), ("expected_loops", jLoops (expectedLoopsFlat S modes)), ("hyps_ok", Json.bool hyps)]
   match j.getObjVal? "tree" with
   | .ok tj =>
     let s ← HF.stmtOfJson tj
